@@ -542,6 +542,22 @@ def num_fields(ty):
     return [(n, t) for n, t in ty if t in ("int64", "double")]
 
 
+def case_frame_getfield(ctx, s: Subject, nest_name=IDENT_NEST):
+    """frame['nest.field'] is the flat series of that field (index = the row's label once per record)"""
+    rng = ctx.rng
+    nf, labels, other = mk_nf(ctx, s, nest_name=nest_name)
+    f, t = rng.choice(s.ty)
+    path = f"{q(nest_name)}.{q(f)}" if q(nest_name) != nest_name else f"{nest_name}.{f}"
+    ans = ctx.driver.call("frame.getField", frame=frame_json(nf), nest=nest_name, field=f)
+
+    def run():
+        fs = nf[path]
+        return {"index": export.labels(fs.index), "vals": export.arrow_values_to_cells(pa.array(fs), t)}
+    ser_ans = ctx.driver.call("getFlatSeries", series={"index": [export.label(l) for l in nf.index.tolist()], "col": s.phys}, field=f)
+    ctx.case("frame.getitem_field", {**s.desc(), "labels": labels, "path": path}, call_real(run), ans["model"], ser_ans["spec"],
+             hyp=s.hyp, features=s.features, nontrivial=s.nontrivial())
+
+
 def case_eval(ctx, s: Subject, nest_name=IDENT_NEST):
     rng = ctx.rng
     if not num_fields(s.ty):
@@ -911,7 +927,13 @@ def case_from_lists(ctx, s: Subject):
     real = call_real(run)
     exp = {"index": [export.label(l) for l in labels], "cls": "NestedFrame", "cols": [
         ["id", "base", "int64", list(range(n))], ["n", "nest", {"ty": s.ty, "rows": weak_rows(rows)}]]}
-    ctx.case(which, {**s.desc(), "labels": labels, "chunked": chunked}, real, None, {"ok": exp}, hyp=s.hyp,
+    # the model packs the physical list arrays (every column in its own chunking) as `pack_lists` does
+    lists_json = []
+    for nm, t in s.ty:
+        col = pa.chunked_array(df[nm].array._pa_array) if not isinstance(df[nm].array._pa_array, pa.ChunkedArray) else df[nm].array._pa_array
+        lists_json.append([nm, t, [export.export_list(ch, t) for ch in col.iterchunks()]])
+    ans = ctx.driver.call("frame.fromLists", index=labels, base=[["id", "int64", list(range(n))]], lists=lists_json, name="n")
+    ctx.case(which, {**s.desc(), "labels": labels, "chunked": chunked}, real, norm_frame(ans["model"]), {"ok": exp}, hyp=s.hyp,
              features=(which, f"dup={len(set(map(str, labels))) < n}", f"chunked={chunked}"), nontrivial=s.nontrivial())
 
 
